@@ -376,6 +376,9 @@ theorem backupPrelude_bsat {b : Nat} : BSat b backupPrelude (fun x => x.1 ≠ b)
   · exact BSat.fail
   · refine BSat.bind (BSat.of_readOnly lastBandId_ro) fun basisBand _ => ?_
     refine BSat.bind bandCreate_bsat fun band hband => ?_
+    refine BSat.bind (BSat.of_readOnly gcLockListed_ro) fun locked2 _ => ?_
+    split
+    · exact BSat.fail
     refine BSat.bind (BSat.of_readOnly listBlocks_ro) fun blocks _ => ?_
     cases basisBand with
     | none => exact BSat.ret hband
